@@ -1124,7 +1124,7 @@ fn gen_scripts(r: &mut Rng, thorough: bool) -> Vec<Script> {
         let ws: Vec<Wr> = (0..8).map(|_| Wr { kind: kinds_for(ep, r), size: pick_size(r, 900) }).collect();
         push(&mut v, Script { idx: String::new(), ep, buf: 65536, rt: 2, chunk: 100, stall_at: 0, stall_ms: 150, fault: fault_for(ep, r), ws });
         // random scripts
-        let n_random = if thorough { 80 } else { 3 };
+        let n_random = if thorough { 60 } else { 3 };
         for _ in 0..n_random {
             let n = 1 + r.below(32) as usize;
             let budget: usize = if thorough { 6 << 20 } else { 2 << 20 };
